@@ -38,13 +38,16 @@ SPEC = {
              "fiber/scalar, scalar/fiber), Fiber.copy, deepcopy of Fiber/Tensor/Rank/RankAttrs/Payload, nonEmpty, "
              "Tensor.fromFiber on an owned root) applied to a free fiber, a tensor or a tensor-owned (root or "
              "interior) fiber of depth 1-4, canonical or dirty (explicit defaults, empty sub-fibers), default 0 or 7, "
-             "C/U rank formats, optionally itself the result of earlier transforms; followed by 3 mutations of the "
+             "C/U rank formats, built from a fiber or - tensors, a quarter of the random ones and 7 of the fixed ones - "
+             "by a HISTORY: created empty by Tensor(rank_ids=..) mostly WITHOUT a shape (the ranks then store no shape, "
+             "not even an estimate) and filled afterwards by getPayloadRef + `<<=` in a scrambled order or by a "
+             "populate loop nest; optionally itself the result of earlier transforms; followed by 3 mutations of the "
              "result and 3 of the operand; systematic sweep = fixed trees x the whole operation catalogue, plus "
              "random cases; (ii) `ro`: a battery of ~150-400 read-only operations (point reads incl. absent and "
              "partial points, positions, slices, every non-Ref iterator and dense co-iterator, & | ^ -, "
              "intersection/union, ==, emptiness/count/shape/depth/rank-id/min/max/active queries, str/repr/"
              "format/print, dump/fiber2dict, uncompress, Format.get*, Compute.numSwaps) on three tensors or free "
-             "fibers of the same geometry, compressed and 'U'-format ranks, plus a flattened (tuple-"
+             "fibers of the same geometry (same builders, incl. the filled-after-creation tensors), compressed and 'U'-format ranks, plus a flattened (tuple-"
              "coordinate, list-valued rank id) view; (iii) `img`: TensorImage in styles tree / uncompressed / "
              "tree+uncompressed rendered twice on compressed-format tensors of rank 1-3 with missing, stored-empty "
              "and all-default rows inside the upper rank's shape (and the root fiber on its own), then with a "
@@ -71,12 +74,18 @@ SPEC = {
                              "ro:Compute.numSwaps": 80, "ro:Fiber.__or__": 300, "ro:Tensor.dump": 100,
                              "val:Tensor.flattenRanks[flattened operand]": 15,
                              "val:Tensor.unflattenRanks[flattened operand]": 30, "val:deepcopy(Tensor)": 20,
-                             "val:Tensor.swizzleRanks": 30, "val:Fiber:fiber+fiber": 40},
+                             "val:Tensor.swizzleRanks": 30, "val:Fiber:fiber+fiber": 40,
+                             "val_cases[filled,no shape]": 300, "val_cases[filled:pop]": 80, "val_cases[filled:ref]": 250,
+                             "ro_cases[filled,no shape]": 12, "img_cases[filled,no shape]": 3,
+                             "ro:Tensor.getShape[rank without a stored shape]": 12,
+                             "ro:Fiber.getShape[rank without a stored shape]": 40},
                    "thorough": {"evaluations": 20000, "oracle_evals": 600000, "val_ops_returned": 15000,
                                 "ro_ops": 400000, "img_renders": 3000, "img_hl_renders": 1200,
                                 "img_hl_pairs_compared": 500, "img_hl_visible": 900,
                                 "img_hl_workers[str]": 400, "img_hl_workers[int]": 400,
-                                "img_hl_workers[tuple]": 400}},
+                                "img_hl_workers[tuple]": 400, "val_cases[filled,no shape]": 3000,
+                                "ro_cases[filled,no shape]": 200, "img_cases[filled,no shape]": 40,
+                                "ro:Tensor.getShape[rank without a stored shape]": 200}},
     "budget_s": {"quick": 150, "thorough": 900},
     "assumptions": [
         "ordered/unique fibers; integer coordinates (tuple coordinates only as produced by flattenRanks)",
@@ -105,6 +114,8 @@ SPEC = {
         "without stored empty fibers (all-default nests raise in _fillempty: C13's); `a - b` only with a "
         "compressed a; numSwaps: depth <= ranks-2, radix int >= 2, latency int ('N' only on compressed ranks)",
         "a follow-up mutation that the library rejects is skipped (counted), not judged",
+        "history-built operands are tensors only (a free Fiber() cannot grow below its first level); a populate "
+        "history is used for canonical specs only (populate does not store content-less rows)",
         "writing into a box returned by getDefault()/getPayload(absent point) must not reach the tree "
         "(documented: a copy / created but not inserted)",
     ],
@@ -369,9 +380,63 @@ def build(cfg, spec=None):
     if cfg["own"] == "free":
         return None, gen.fiber_from_spec(spec, d, shape=cfg.get("shape"))
     ids = gen.rank_ids_for(cfg["depth"])
+    if cfg.get("build"):
+        t = filled_tensor(spec, ids, cfg.get("shape"), d, cfg.get("fmts"), cfg.get("name") or "", cfg.get("mutable"),
+                          cfg["build"])
+        return t, t.getRoot()
     t = gen.tensor_from_spec(spec, ids, shape=cfg.get("shape"), default=d, fmts=cfg.get("fmts"),
                              name=cfg.get("name") or "", mutable=cfg.get("mutable"))
     return t, t.getRoot()
+
+
+def _spec_items(spec, path=()):
+    """[(coordinate path, value | None)] of a tree spec: stored leaves, and (value None) stored empty fibers"""
+    out = []
+    for c, sub in spec:
+        if isinstance(sub, list):
+            if sub:
+                out += _spec_items(sub, path + (c,))
+            else:
+                out.append((path + (c,), None))
+        else:
+            out.append((path + (c,), sub))
+    return out
+
+
+def _populate(zf, af):
+    for _, (zr, ar) in zf << af:
+        if isinstance(ar, Fiber):
+            _populate(zr, ar)
+        else:
+            zr <<= unbox(ar)
+
+
+def filled_tensor(spec, ids, shape, default, fmts, name, mutable, how):
+    """A tensor with a history: created EMPTY by the public constructor (with or without a shape - without one
+    the ranks hold no shape at all, not even an estimate) and filled afterwards, the way a kernel output is:
+    `ref`  = one getPayloadRef + `<<=` per stored leaf, in a scrambled order (a partial point stores an empty fiber);
+    `pop`  = a populate loop nest (`z << a`) from a source tensor holding the spec."""
+    kw = {"name": name} if name else {}
+    if shape:
+        kw["shape"] = list(shape)
+    t = Tensor(rank_ids=list(ids), default=default, **kw)
+    if fmts:
+        for r, fm in zip(ids, fmts):
+            if fm != "C":
+                t.setFormat(r, fm)
+    if how == "pop":
+        a = gen.tensor_from_spec(spec, ids, default=default)
+        _populate(t.getRoot(), a.getRoot())
+    else:
+        items = _spec_items(spec)
+        random.Random(len(items) * 31 + len(ids)).shuffle(items)
+        for path, v in items:
+            ref = t.getPayloadRef(*path)
+            if v is not None:
+                ref <<= v
+    if mutable is not None:
+        t.setMutable(mutable)
+    return t
 
 
 UPD_COORDS = {"shift": lambda i, c, p: c + 1, "rev": lambda i, c, p: 50 - c, "same": lambda i, c, p: c}
@@ -611,10 +676,15 @@ def fixed_cfgs():
                             cfg["name"] = "A" if shaped else ""
                             cfg["mutable"] = True if flavour == "dirty" else None
                         out.append(cfg)
+                        # the same tree as the output of a history: created empty and filled afterwards; without a
+                        # shape the ranks then hold no shape at all (a from-fiber tensor holds an estimate)
+                        if own == "tensor" and depth <= 3 and not shaped and (default == 0 or depth == 2):
+                            out.append(dict(cfg, build="pop" if flavour == "canon" else "ref"))
     return out
 
 
-def rand_cfg(rng, own=None, depths=None):
+def rand_cfg(rng, own=None, depths=None, filled_rng=None):
+    """filled_rng: own stream deciding whether the tensor is built by a fill history (keeps the main stream as is)"""
     own = own or rng.choice(["tensor", "tensor", "tensor", "free"])
     depth = rng.choice(depths or ([1, 2, 2, 3, 3, 4] if own == "tensor" else [1, 2, 2, 3]))
     ext = [rng.randint(2, 5) for _ in range(depth)]
@@ -628,6 +698,11 @@ def rand_cfg(rng, own=None, depths=None):
         cfg["fmts"] = [rng.choice("CCCU") for _ in range(depth)]
         cfg["name"] = rng.choice(["", "A", "T1"])
         cfg["mutable"] = rng.choice([None, True, False])
+        if filled_rng is not None and filled_rng.random() < 0.25:
+            # created empty (mostly without a shape) and filled afterwards
+            cfg["build"] = "pop" if not dirty and filled_rng.random() < 0.5 else "ref"
+            if filled_rng.random() < 0.75:
+                cfg["shape"] = None
     return cfg
 
 
@@ -669,6 +744,7 @@ def generate(rng, tier, shard, nshards, mon):
     # (iii) random
     nval, nro, nimg = ((3600, 256, 80) if tier == "quick" else (60000, 5000, 1800))
     sched = ["val"] * 25 + ["ro"] * 2 + ["img"]
+    frng = random.Random(rng.getrandbits(32))
     n = (nval + nro + nimg) // nshards
     quota = {"val": nval // nshards, "ro": nro // nshards, "img": nimg // nshards}
     for i in range(n * 2):
@@ -679,14 +755,14 @@ def generate(rng, tier, shard, nshards, mon):
             continue
         quota[kind] -= 1
         if kind == "val":
-            cfg = rand_cfg(rng)
+            cfg = rand_cfg(rng, filled_rng=frng)
             ops = catalogue(rng, cfg)
             yield {"kind": "val", "cfg": cfg, "spec2": _spec_like(rng, cfg), "op": rng.choice(ops),
                    "mres": _muts(rng), "mop": _muts(rng)}
         elif kind == "ro":
-            yield _ro_case(rng, rand_cfg(rng))
+            yield _ro_case(rng, rand_cfg(rng, filled_rng=frng))
         else:
-            cfg = _img_cfg(rng)
+            cfg = _img_cfg(rng, frng)
             yield {"kind": "img", "cfg": cfg, "hl": _img_highlights(f"rand:{i}", cfg, False)}
 
 
@@ -728,10 +804,10 @@ def _img_fixed():
     return out
 
 
-def _img_cfg(rng):
-    cfg = rand_cfg(rng, own="tensor", depths=[1, 2, 2, 2, 3, 3])
+def _img_cfg(rng, frng=None):
+    cfg = rand_cfg(rng, own="tensor", depths=[1, 2, 2, 2, 3, 3], filled_rng=frng)
     cfg["fmts"] = ["C"] * cfg["depth"]
-    if rng.random() < 0.8 and cfg["shape"] is None:
+    if rng.random() < 0.8 and cfg["shape"] is None and not (cfg.get("build") and frng.random() < 0.6):
         cfg["shape"] = [e + rng.choice([0, 1, 2]) for e in cfg["ext"]]
     if cfg["depth"] >= 2 and rng.random() < 0.6:
         # guarantee rows that are missing / stored empty / all explicit default inside the upper rank's shape
@@ -746,6 +822,8 @@ def _img_cfg(rng):
         if sub is not None:
             spec.append([1, sub])
         cfg["spec"] = sorted(spec, key=lambda e: e[0])
+        if sub is not None and cfg.get("build"):
+            cfg["build"] = "ref"            # a populate loop nest would not store the content-less row
     return cfg
 
 
@@ -1022,6 +1100,8 @@ def _guard(op, target, default, cfg, at_leaf_level=True):
              "updateCoords", "add_fs", "add_sf"):
         if f is not None and not int_coords(f):
             return "tuple coordinates"
+    # (updateCoords at a rank that stores no shape raised AssertionError - shape-type assertion - until repository fix
+    # 2dd70fc: key Tensor.updateCoords:raised:AssertionError)
     if n == "truediv":
         if not f.coords and not (f.getRankAttrs().getShape() or 0) >= 1:
             return "shape 0"
@@ -1328,6 +1408,8 @@ def _fiber_battery(ro, f, lvl, D, pts, default, fmt_u, inv, rng3, intc):
     R("Fiber.countValues", lambda: (f.countValues(), f.countValues(recursive=False)), inv)
     R("Fiber.__len__", lambda: len(f), inv)
     R("Fiber.getShape", lambda: (f.getShape(), f.getShape(all_ranks=False), f.getShape(all_ranks=False, authoritative=True)), inv)
+    if f.getRankAttrs().__dict__.get("_shape") is None:
+        ro.mon.count("ro:Fiber.getShape[rank without a stored shape]")
     if f.getOwner() is not None:
         R("Fiber.getShape[authoritative]", lambda: f.getShape(authoritative=True), inv)
     R("Fiber.estimateShape", lambda: (f.estimateShape(), f.estimateShape(all_ranks=False)), inv)
@@ -1404,6 +1486,8 @@ def _tensor_battery(ro, T, i, case, others):
     R("Tensor.countValues", lambda: T.countValues(), inv)
     R("Tensor.getShape", lambda: (T.getShape(), T.getShape(authoritative=True), T.getShape(list(ids[-1:])),
                                   T.getShape(ids[-1]) if isinstance(ids[-1], str) else None), inv)
+    if any(rk._attrs.__dict__.get("_shape") is None for rk in T.ranks):
+        ro.mon.count("ro:Tensor.getShape[rank without a stored shape]")
     R("Tensor.getDepth/getRankIds", lambda: (T.getDepth(), T.getRankIds(), T.getRoot(), T.getName(), T.getColor(), T.isMutable(),
                                              [T.getFormat(r) for r in ids]), inv)
 
@@ -1617,6 +1701,10 @@ def _run_img(case, mon):
 
 def run_case(case, mon):
     kind = case["kind"]
+    if case["cfg"].get("build"):
+        tag = "filled" + ("" if case["cfg"].get("shape") else ",no shape")
+        mon.count(f"{kind}_cases[{tag}]")
+        mon.count(f"{kind}_cases[filled:{case['cfg']['build']}]")
     if kind == "val":
         _run_val(case, mon)
     elif kind == "ro":
